@@ -15,12 +15,13 @@ from the generated expressions of Gen/SitesC08.lean, over the C07 section model 
                  index >= size gives null (get_beyond_none).
   add_refines    `add_string` = `Spec.addStr` on the content (seed NUL into an empty table, append
                  str+NUL, return the start), invariant kept; hypothesis: resulting size < 2^32.
-  add_get / get_stable / add_all_get   the returned index retrieves exactly the C string, immediately
-                 and after ANY sequence of later additions (induction over the sequence, no length bound
-                 other than the final size < 2^32).
+  add_get / get_stable / add_all_refines / add_all_get   the returned index retrieves exactly the C
+                 string (str up to its first NUL), immediately and after ANY sequence of later additions
+                 (induction over the sequence, no length bound other than the final size < 2^32).
   index0_empty   after at least one addition to an empty table (and for every table starting with NUL)
                  index 0 is the empty string, and stays so.
   add_null_noop  a null `str` returns 0 and changes nothing.
+Nothing is `_partial`; no finding: the property holds on the unchanged tree.
 ONLY CORRESPONDENCE-CHECKED: that the model is the code (harness/c08.cpp over the real accessor vs
 Driver/C08.lean, same transcripts), the `std::string` overload, the const accessor, and "after save and
 reload" (the harness saves the whole file to a stringstream, reloads eagerly/lazily and re-queries; the
@@ -45,7 +46,7 @@ RULE = ("tables created empty / created by set_data with exact allocation / load
         "0-40 additions (empty, repeated, high bytes, embedded NUL, 200-600 byte strings, const char* / std::string / "
         "nullptr), every returned index re-queried immediately, after later additions and after save+reload (lazy and "
         "eager); lookups at 0, size-1, size, size+1, 2^32-1, 2^31, every index of small tables, random indices; "
-        "thorough adds all sequences of <=4 additions (quick: <=2) over a 5-string alphabet on 5 setups with every index queried "
+        "tables > 64 KiB; NOBITS sections with a size and no data (null data => null); thorough adds all sequences of <=4 additions (quick: <=2) over a 5-string alphabet on 5 setups with every index queried "
         "after every addition. non-trivial = some lookup returned a non-empty string; distinct by md5 of the case text")
 ASSUMPTIONS = ["new(nothrow) succeeds for the sizes generated (<= ~100 KiB)",
                "table size stays below 2^32 (Elf_Word positions) - explicit hypothesis of add_refines/add_get",
@@ -121,6 +122,9 @@ def gen_random(rng, i):
         lines.append(f"new cls={cls} enc={enc} type={ty}")
         if rng.random() < 0.25 and ty != 8:
             content = rand_table(rng); lines.append(f"set {hx(content)}")
+        if ty == 8 and rng.random() < 0.7:      # .bss-like: a size but never any data
+            nb = rng.randint(1, 64); lines.append(f"setsize {nb}")
+            lines += [f"get {j}" for j in (0, nb - 1, nb, rng.randrange(nb))]
     else:
         ty = 3 if rng.random() < 0.9 else 1
         content = rand_table(rng)
@@ -165,6 +169,18 @@ def gen_cases(rng, tier):
     n = 500 if tier == "quick" else 5000
     for i in range(n):
         yield gen_random(rng, i)
+    # tables beyond 64 KiB (positions need all of Elf_Word) and NOBITS sections with a size
+    for j in range(2 if tier == "quick" else 12):
+        big = bytes(rng.randrange(1, 256) for _ in range(rng.randint(65536, 70000))) + (b"\0" if j % 2 == 0 else b"")
+        lines = [f"loadsec cls={rng.choice([32, 64])} enc={rng.choice(['lsb', 'msb'])} lazy={j % 2} type=3 data={hx(big)}"]
+        lines += [f"get {len(big) - 1}", f"get {len(big)}", "get 65535", "get 65536", "add 6162", "getr 0", "adds 63", "getr 1",
+                  "getr 0", f"get {U32}", "reload lazy=1", "getr 0", "getr 1"]
+        yield {"id": f"big{j}", "lines": lines, "meta": {}}
+    for j in range(8 if tier == "quick" else 40):
+        nb = rng.randint(1, 5000)
+        lines = [f"new cls={rng.choice([32, 64])} enc=lsb type=8", f"setsize {nb}"]
+        lines += [f"get {q}" for q in (0, 1, nb - 1, nb, nb + 1, U32)] + ["add 6162", "getr 0", "dump", f"reload lazy={j % 2}", "get 0", f"get {nb - 1}"]
+        yield {"id": f"nobits{j}", "lines": lines, "meta": {}}
     # exhaustive small scope: every sequence of <= L additions, every index after every addition
     alpha = [b"", b"a", b"ab", b"a\0b", b"\xff\x80"]
     setups = [("new cls=64 enc=lsb type=3", b""), ("loadsec cls=32 enc=msb lazy=1 type=3 data=007800", b"\0x\0"),
